@@ -511,50 +511,67 @@ def case_groups(ctx, rng, state):
     wit = dict(paral=paral, nk=nk, nb=nb, mode=mode, scale=scale, Efermi=Ef, degen_thresh=thresh, Kramers=kramers, straddle=straddle,
                eCenter=eCenter, eCorners=eCorners)
 
-    # exact band fractions
-    lowb = np.zeros((nk, nb, nE))
-    upb = np.zeros((nk, nb, nE))
-    for ik in range(nk):
-        for ib in range(nb):
-            if paral:
-                cube = eCorners[ik, :, :, :, ib]
-                tets = [[eCenter[ik, ib]] + [cube[v] for v in t] for t in SUBTETS]
-            else:
-                tets = [list(eCorners[ik, :, ib])]
-            for t in tets:
-                ex = Exact(t)
-                for ie, x in enumerate(Ef):
-                    lw, up = ex.bracket(x)
-                    lowb[ik, ib, ie] += lw / len(tets)
-                    upb[ik, ib, ie] += up / len(tets)
-
-    for der in (0, -1):
-        res = tw.weights_all_band_groups(Ef, der=der, degen_thresh=thresh, degen_Kramers=kramers)
-        ctx.count("groups_paral" if paral else "groups_tetra")
+    def check_for(Ef, tag):
+        nE = len(Ef)
+        wit_ = dict(wit, Efermi=Ef, request=tag)
+        # exact band fractions
+        lowb = np.zeros((nk, nb, nE))
+        upb = np.zeros((nk, nb, nE))
         for ik in range(nk):
-            covered = np.zeros(nb, dtype=int)
-            tot = np.zeros(nE)
-            for (ib1, ib2), w in res[ik].items():
-                w = np.asarray(w, dtype=float)
-                covered[ib1:ib2] += 1
-                tot += w * (ib2 - ib1)
-                lw = lowb[ik, ib1:ib2].mean(axis=0)
-                up = upb[ik, ib1:ib2].mean(axis=0)
+            for ib in range(nb):
+                if paral:
+                    cube = eCorners[ik, :, :, :, ib]
+                    tets = [[eCenter[ik, ib]] + [cube[v] for v in t] for t in SUBTETS]
+                else:
+                    tets = [list(eCorners[ik, :, ib])]
+                for t in tets:
+                    ex = Exact(t)
+                    for ie, x in enumerate(Ef):
+                        lw, up = ex.bracket(x)
+                        lowb[ik, ib, ie] += lw / len(tets)
+                        upb[ik, ib, ie] += up / len(tets)
+
+        for der in (0, -1):
+            res = tw.weights_all_band_groups(Ef, der=der, degen_thresh=thresh, degen_Kramers=kramers)
+            ctx.count("groups_paral" if paral else "groups_tetra")
+            for ik in range(nk):
+                covered = np.zeros(nb, dtype=int)
+                tot = np.zeros(nE)
+                for (ib1, ib2), w in res[ik].items():
+                    w = np.asarray(w, dtype=float)
+                    covered[ib1:ib2] += 1
+                    tot += w * (ib2 - ib1)
+                    lw = lowb[ik, ib1:ib2].mean(axis=0)
+                    up = upb[ik, ib1:ib2].mean(axis=0)
+                    if der == -1:
+                        lw, up = 1 - up, 1 - lw
+                    check_bracket(ctx, "TetraWeights.group_weight!=mean_exact_fraction", w, lw, up, 0.0,
+                                  f"group ({ib1},{ib2}) der={der} paral={paral}", dict(wit_, ik=ik, group=(ib1, ib2), der=der), Ef)
+                ctx.ev()
+                if covered.max() > 1:
+                    ctx.violation("TetraWeights.groups_overlap", f"band covered {covered.max()} times: {sorted(res[ik])}",
+                                  dict(wit_, ik=ik, der=der))
+                # completeness: the total weight is the sum over ALL bands of the exact fraction
+                lw = lowb[ik].sum(axis=0)
+                up = upb[ik].sum(axis=0)
                 if der == -1:
-                    lw, up = 1 - up, 1 - lw
-                check_bracket(ctx, "TetraWeights.group_weight!=mean_exact_fraction", w, lw, up, 0.0,
-                              f"group ({ib1},{ib2}) der={der} paral={paral}", dict(wit, ik=ik, group=(ib1, ib2), der=der), Ef)
-            ctx.ev()
-            if covered.max() > 1:
-                ctx.violation("TetraWeights.groups_overlap", f"band covered {covered.max()} times: {sorted(res[ik])}",
-                              dict(wit, ik=ik, der=der))
-            # completeness: the total weight is the sum over ALL bands of the exact fraction
-            lw = lowb[ik].sum(axis=0)
-            up = upb[ik].sum(axis=0)
-            if der == -1:
-                lw, up = nb - up, nb - lw
-            check_bracket(ctx, "TetraWeights.total_weight!=sum_of_exact_fractions", tot, lw, up, (nb - 1) * EPS,
-                          f"total der={der} paral={paral}", dict(wit, ik=ik, der=der, groups=sorted(res[ik])), Ef)
+                    lw, up = nb - up, nb - lw
+                check_bracket(ctx, "TetraWeights.total_weight!=sum_of_exact_fractions", tot, lw, up, (nb - 1) * EPS,
+                              f"total der={der} paral={paral}", dict(wit_, ik=ik, der=der, groups=sorted(res[ik])), Ef)
+        return lowb, upb
+
+    # the same object serves several Fermi-level arrays one after the other (it caches weights per array): the array asked for first,
+    # a different array of the same length with the same end points, an equal copy, and the first one again
+    lowb, upb = check_for(Ef, "first")
+    if len(Ef) >= 3:
+        Ef2 = Ef.copy()
+        Ef2[1:-1] = np.sort(rng.uniform(Ef[0], Ef[-1], len(Ef) - 2))
+        check_for(np.ascontiguousarray(Ef2), "same_length_and_end_points_other_interior")
+        ctx.count("groups_second_fermi_array_same_ends")
+    if rng.random() < 0.5:
+        check_for(np.ascontiguousarray(Ef[:-1] if len(Ef) > 1 else Ef + 0.1 * (hi - lo)), "other_array")
+    check_for(Ef.copy(), "equal_copy")
+    check_for(Ef, "first_again")
     cut = bool(np.any((lowb > 1e-6) & (upb < 1 - 1e-6)))
     if cut:
         ctx.nontrivial(("groups", paral, nk, nb, mode, scale, round(float(thresh), 6), kramers, nE, straddle))
